@@ -57,6 +57,7 @@ def check(ck):
     r13_7(ck)
     r13_8(ck)
     r13_9(ck)
+    r13_11(ck)
     from . import c01
     from ..engine_model import RunFor
     rf = RunFor(ck)
@@ -189,11 +190,11 @@ def r13_1(ck, only=None, rule='R13.1'):
 
 def r13_2(ck):
     ck.rule('R13.2', 'pairing: send_command is called only by run_command '
-            '(send + fetch), _invoke_process (paired through the Defer), '
+            '(send + fetch), _process_update (paired through the Defer), '
             'ParallelProcess.end and overrides delegating to super(); every '
             'send_command override starts with the guarded pre-check')
-    allowed = {'Process.run_command', '_invoke_process',
-               'ParallelProcess.end'}
+    allowed = {'Process.run_command', '_process_update',
+               'Engine._process_update', 'ParallelProcess.end'}
     n = 0
     for fi in ck.repo.functions:
         if fi.is_test:
@@ -792,6 +793,43 @@ def r13_8(ck):
                        'the worker is not a daemonic process',
                        'the worker is made daemonic: it may not have '
                        'children of its own', s2)
+
+
+def r13_11(ck):
+    ck.rule('R13.11', 'Store.divide asks the mother for what a daughter '
+            'inherits only when that daughter does not bring its own: the '
+            'mother is asked for its processes (which asks every process '
+            'is_step(), a command for a parallel one) inside the daughters '
+            'loop under the "not given by the daughter" test - a division '
+            'whose daughters bring their processes sends no command to the '
+            'processes of the mother, which may have updates in flight')
+    from .roles import loops_over_field, spec_field
+    dv = ck.fn('Store.divide', 'core.store')
+    cfg = cfg_of(dv.node)
+    loops = loops_over_field(dv.node, 'daughters')
+    n = 0
+    for c in A.calls_in(dv.node, ('get_processes', 'get_steps')):
+        n += 1
+        inside = [lp for lp in loops if within(c, lp)]
+        ok = bool(inside)
+        if ok:
+            lp = inside[0]
+            tv = lp.target.elts[0] if isinstance(
+                lp.target, ast.Tuple) else lp.target
+            dname = A.unparse(tv)
+            g = cfg.guards(cfg.node(c)) - cfg.guards(
+                cfg.loops[id(lp)]['body_entry'])
+            ok = any(a[0] == 'notin' and a[2] == dname for a in g)
+        ck.require(ok, 'R13.11', dv, c,
+                   'the mother is asked for its processes only for a '
+                   'daughter that brings none',
+                   'Store.divide collects the processes of the mother '
+                   'unconditionally (%s): also when every daughter brings '
+                   'its own, each process of the mother is asked is_step() '
+                   '- a parallel process with an update in flight answers '
+                   "with RuntimeError '... is still pending' and the "
+                   'division is left half applied' % A.short(c, 60), c)
+    ck.floor('R13.11', n, 1, 'lookups of the mother processes in divide')
 
 
 def r13_9(ck):
